@@ -656,3 +656,130 @@ contract(f"{BOSS}::IndividualBOSS.predict_proba", "C17,C16,C12", cases=["-"], in
          ensures=[("predict-called-once-on-the-callers-data", lambda A, r: len(A.self.ghost["pc"]) == 1 and A.self.ghost["pc"][0][0] is A.X, {"modular": False})],
          frame=lambda A: [A.self, A.X],
          notes=["one-hot row of the predicted label's column (a distribution by construction)"])
+
+
+# ----------------------------------------------------------------------------- RISE: average of the per-estimator probabilities
+RISE = "sktime/classification/interval_based/_rise.py"
+
+
+def _rise_transform_returns(A):
+    return Opaque("spectral features of one interval", prov=("rise_transform", A.X, A.interval, A.lag))
+
+
+contract(f"{RISE}::_transform", "C17", cases=["-"], assumed=True, inputs=lambda B, case: {}, returns=_rise_transform_returns,
+         notes=["ASSUMED: RISE's _transform(X, interval, lag) (power spectrum and autocorrelation features of the interval) is a function "
+                "of its three arguments, row by row; its values are bounded-tier only"])
+
+
+def _rise_inputs(B, case):
+    I = B.I
+    E = int(case)
+    ok, cls = I.mod_global(I.src.module("sktime.classification.interval_based._rise"), "RandomIntervalSpectralForest")
+    obj = SObj(cls)
+    X = _panel3(B)
+    n = X.shape[0]
+    C = B.int("n_classes", 1)
+    Ls = B.int("fitted_series_length", 1)
+    trees, outs, ivs, lags = [], [], [], []
+    for t in range(E):
+        tree = B.abstract(f"tree{t}")
+        P = B.arr(f"P{t}", dtype="real", shape=[n, C])
+        tree.results = {"predict_proba": (lambda o_: (lambda I2, o, ev: o_))(P)}
+        trees.append(tree)
+        outs.append(P)
+        ivs.append(B.opaque(f"interval{t}"))
+        lags.append(B.opaque(f"lag{t}"))
+    obj.attrs.update(_is_fitted=True, n_jobs=B.opaque("n_jobs"), n_estimators=E, estimators_=SList(trees, "list"),
+                     intervals=SList(ivs, "list"), lags=SList(lags, "list"), n_classes=C, series_length=Ls)
+    obj.ghost = dict(trees=trees, outs=outs, ivs=ivs, lags=lags, X=X, E=E)
+    return {"self": obj, "X": X}
+
+
+def _rise_events(A, r):
+    g = A.self.ghost
+    evs = [e for e in trace() if e.obj is not None]
+    if len(evs) != g["E"]:
+        return False
+    for t, e in enumerate(evs):            # tree t once, in order, on the features of ITS interval and lag of the caller's data
+        a = e.arg(0) if len(e.args) == 1 else None
+        if e.obj is not g["trees"][t] or e.method != "predict_proba" or not isinstance(a, Opaque) or not a.prov or a.prov[0] != "rise_transform":
+            return False
+        _, x2, iv, lg = a.prov
+        if iv is not g["ivs"][t] or lg is not g["lags"][t] or not isinstance(x2, SArr) or x2.ndim != 2:
+            return False
+    X = g["X"]
+    x2 = evs[0].arg(0).prov[1]
+    return And(Eq(x2.shape[0], X.shape[0]), Eq(x2.shape[1], X.shape[2]),
+               ForAll(lambda i: ForAll(lambda t: Eq(x2.fn(i, t), X.fn(i, 0, t)), 0, X.shape[2], "t"), 0, X.shape[0], "i"))
+
+
+contract(f"{RISE}::RandomIntervalSpectralForest.predict_proba", "C17,C16,C12", cases=["1", "2", "3"], inputs=_rise_inputs,
+         raises=[("ValueError", lambda A: Z(A.X.shape[1]) > 1),
+                 ("TypeError", lambda A: And(Z(A.X.shape[1]) == 1, Z(A.X.shape[2]) != Z(A.self.attrs["series_length"])))],
+         applicable=lambda A: isinstance(getattr(A.self, "ghost", None), dict), returns=_forest_avg,
+         ensures=[("every-tree-sees-the-features-of-its-own-interval-and-lag", _rise_events, {"modular": False})],
+         frame=lambda A: [A.self, A.X],
+         notes=["1..3 trees; the spectral feature transform is an assumed contract (function of data, interval and lag)"])
+
+
+STSF = "sktime/classification/interval_based/_stsf.py"
+for _file, _mod, _cls in ((RISE, "sktime.classification.interval_based._rise", "RandomIntervalSpectralForest"),
+                          (STSF, "sktime.classification.interval_based._stsf", "SupervisedTimeSeriesForest")):
+    contract(f"{_file}::{_cls}.predict", "C17,C12", cases=["-"], inputs=_decode_inputs(_mod, _cls),
+             ensures=[("label-of-a-maximal-probability-column-for-every-instance", _decoded)],
+             frame=lambda A: [A.self, A.X])
+
+
+# supervised time series forest: average of the per-estimator probabilities on (series, periodogram, first differences)
+def _stsf_inputs(B, case):
+    I = B.I
+    E = int(case)
+    ok, cls = I.mod_global(I.src.module("sktime.classification.interval_based._stsf"), "SupervisedTimeSeriesForest")
+    obj = SObj(cls)
+    X = _panel3(B)
+    n = X.shape[0]
+    C = B.int("n_classes", 1)
+    trees, outs, ivs = [], [], []
+    calls = []
+    for t in range(E):
+        tree = B.abstract(f"tree{t}")
+        P = B.arr(f"P{t}", dtype="real", shape=[n, C])
+        trees.append(tree)
+        outs.append(P)
+        ivs.append(B.opaque(f"intervals{t}"))
+
+    def per_estimator(I2, args, kwargs):
+        calls.append(list(args))
+        est = args[4]
+        return outs[trees.index(est)] if est in trees else B.arr("P_unknown", dtype="real", shape=[n, C])
+    obj.attrs.update(_is_fitted=True, n_jobs=B.opaque("n_jobs"), n_estimators=E, estimators_=SList(trees, "list"),
+                     intervals_=SList(ivs, "list"), n_classes=C, _predict_proba_for_estimator=_native(per_estimator))
+    obj.ghost = dict(trees=trees, outs=outs, ivs=ivs, X=X, E=E, calls=calls)
+    return {"self": obj, "X": X}
+
+
+def _stsf_events(A, r):
+    g = A.self.ghost
+    if len(g["calls"]) != g["E"]:
+        return False
+    X = g["X"]
+    conds = []
+    for t, (x2, xp, xd, iv, est) in enumerate(g["calls"]):
+        if est is not g["trees"][t] or iv is not g["ivs"][t] or not isinstance(x2, SArr) or x2.ndim != 2:
+            return False
+        if not (isinstance(xp, Opaque) and xp.prov and xp.prov[0] == "periodogram" and xp.prov[1] is x2):
+            return False
+        if not (isinstance(xd, Opaque) and xd.prov and xd.prov[0] == "diff" and xd.prov[1] is x2):
+            return False
+        conds.append(And(Eq(x2.shape[0], X.shape[0]), Eq(x2.shape[1], X.shape[2]),
+                         ForAll(lambda i: ForAll(lambda q: Eq(x2.fn(i, q), X.fn(i, 0, q)), 0, X.shape[2], "q"), 0, X.shape[0], "i")))
+    return And(*conds)
+
+
+contract(f"{STSF}::SupervisedTimeSeriesForest.predict_proba", "C17,C16,C12", cases=["1", "2", "3"], inputs=_stsf_inputs,
+         raises=[("ValueError", lambda A: Z(A.X.shape[1]) > 1)],
+         applicable=lambda A: isinstance(getattr(A.self, "ghost", None), dict), returns=_forest_avg,
+         ensures=[("every-tree-is-asked-once-with-its-own-intervals-on-series-periodogram-and-differences", _stsf_events, {"modular": False})],
+         frame=lambda A: [A.self, A.X],
+         notes=["1..3 trees; _predict_proba_for_estimator (feature extraction + tree) is abstract here; scipy.signal.periodogram and np.diff "
+                "are opaque functions of the squeezed data (recorded by provenance)"])
